@@ -647,6 +647,15 @@ func (c *Context) Cbrt(d, x *Decimal) (Condition, error) {
 
 	var ax, z Decimal
 	ax.Abs(x)
+	// |x| = ax * 10**(3*k) with 1 <= ax < 1000. The root of x is the root of ax
+	// times 10**k: whatever the exponent of x, the computation stays away from
+	// the exponent limits and the range reduction below takes a few steps.
+	adj := int64(ax.Exponent) + ax.NumDigits() - 1
+	k := adj / 3
+	if adj%3 < 0 {
+		k--
+	}
+	ax.Exponent -= int32(3 * k)
 	z.Set(&ax)
 	neg := x.Negative
 	nc := BaseContext.WithPrecision(c.Precision*2 + 2)
@@ -726,6 +735,7 @@ func (c *Context) Cbrt(d, x *Decimal) (Condition, error) {
 	// the root relative to the midpoint of that interval, and round a stand-in
 	// with the same position in the caller's mode and with the operand's sign.
 	if c.Precision == 0 {
+		z.Exponent += int32(k)
 		res := c.round(d, &z)
 		res, err := c.goError(res)
 		d.Negative = neg
@@ -775,6 +785,7 @@ func (c *Context) Cbrt(d, x *Decimal) (Condition, error) {
 	if pos == 0 {
 		// Result is exact
 		d.Set(&v)
+		d.Exponent += int32(k)
 		d.Negative = neg
 		return c.goError(c.round(d, d))
 	}
@@ -798,7 +809,7 @@ func (c *Context) Cbrt(d, x *Decimal) (Condition, error) {
 	var q BigInt
 	v.Coeff.Mul(&v.Coeff, bigHundred)
 	v.Coeff.Add(&v.Coeff, q.SetUint64(quarter))
-	v.Exponent -= 2
+	v.Exponent += int32(k) - 2
 	v.Negative = neg
 	res := c.round(d, &v) | Inexact | Rounded
 	return c.goError(res)
